@@ -55,10 +55,10 @@ func sameBuckets(a, b map[int32]uint64) bool {
 // running is the running total of one synchronous stream's delta points.
 type running struct {
 	any        bool // a delta point has been reported
-	val        float64
+	val        num
 	count      uint64
-	sum        float64
-	min, max   float64
+	sum        num
+	min, max   num
 	hasMinMax  bool
 	bounds     []float64
 	buckets    []uint64
@@ -306,7 +306,7 @@ func run(c Case) ([]vk.Violation, vk.Info) {
 						}
 						if p == nil {
 							bad("gauge_missing", "collection %d: %s reader does not report %s set #%d although %v was recorded in the cycle", k+1, who, d.name, set, vals)
-						} else if p.Val != last {
+						} else if !p.Val.eq(last) {
 							bad("gauge_last_value", "collection %d: %s reader reports %s set #%d = %v, last value recorded in the cycle is %v (cycle: %v)", k+1, who, d.name, set, p.Val, last, vals)
 						}
 					}
@@ -326,7 +326,7 @@ func run(c Case) ([]vk.Violation, vk.Info) {
 						tot[set] = r
 					}
 					for _, v := range cy.Recorded[i][set] {
-						if !safeExpo(v) {
+						if !safeExpo(v.float()) {
 							r.unsafeExpo = true
 						}
 					}
@@ -334,15 +334,15 @@ func run(c Case) ([]vk.Violation, vk.Info) {
 					r.any = true
 					switch d.kind {
 					case kCounter, kUpDown:
-						r.val += p.Val
+						r.val = r.val.add(p.Val)
 					case kHist, kExpo:
 						r.count += p.Count
-						r.sum += p.Sum
+						r.sum = r.sum.add(p.Sum)
 						if p.HasMin && p.HasMax {
 							if !r.hasMinMax {
 								r.min, r.max, r.hasMinMax = p.Min, p.Max, true
 							} else {
-								r.min, r.max = min(r.min, p.Min), max(r.max, p.Max)
+								r.min, r.max = numMin(r.min, p.Min), numMax(r.max, p.Max)
 							}
 						}
 						if d.kind == kHist {
@@ -393,17 +393,17 @@ func run(c Case) ([]vk.Violation, vk.Info) {
 				}
 				switch d.kind {
 				case kCounter, kUpDown:
-					if p.Val != r.val {
+					if !p.Val.eq(r.val) {
 						bad("sum_running_total", "collection %d: cumulative %s set #%d = %v, running total of the deltas = %v", k+1, d.name, set, p.Val, r.val)
 					}
 				case kHist, kExpo:
 					if p.Count != r.count {
 						bad("histogram_count_running_total", "collection %d: cumulative %s set #%d Count = %d, running total of the deltas = %d", k+1, d.name, set, p.Count, r.count)
 					}
-					if p.Sum != r.sum {
+					if !p.Sum.eq(r.sum) {
 						bad("histogram_sum_running_total", "collection %d: cumulative %s set #%d Sum = %v, running total of the deltas = %v", k+1, d.name, set, p.Sum, r.sum)
 					}
-					if p.HasMin != r.hasMinMax || p.HasMax != r.hasMinMax || (r.hasMinMax && (p.Min != r.min || p.Max != r.max)) {
+					if p.HasMin != r.hasMinMax || p.HasMax != r.hasMinMax || (r.hasMinMax && (!p.Min.eq(r.min) || !p.Max.eq(r.max))) {
 						bad("histogram_minmax", "collection %d: cumulative %s set #%d Min/Max = %v(%v)/%v(%v), over the deltas %v/%v (%v)", k+1, d.name, set, p.Min, p.HasMin, p.Max, p.HasMax, r.min, r.max, r.hasMinMax)
 					}
 					if d.kind == kHist {
@@ -444,7 +444,7 @@ func run(c Case) ([]vk.Violation, vk.Info) {
 		}
 		// per reader: what its callback round of the previous cycle (in which
 		// it collected) observed.
-		prevOf := map[string]map[int]float64{}
+		prevOf := map[string]map[int]num{}
 		for k, cy := range w.cycles {
 			if w.ambiguous {
 				break
@@ -465,7 +465,7 @@ func run(c Case) ([]vk.Violation, vk.Info) {
 			for _, rd := range []struct {
 				who string
 				sn  *snap
-				obs []map[int]float64
+				obs []map[int]num
 			}{{"delta", cy.Delta, cy.ObservedD}, {"cumulative", cy.Cum, cy.ObservedC}} {
 				if rd.sn == nil || rd.obs == nil {
 					continue
@@ -497,10 +497,10 @@ func run(c Case) ([]vk.Violation, vk.Info) {
 					case d.kind == oGauge:
 						kind = "async_gauge_value"
 					case who == "delta":
-						want, kind = v-prevObs[set], "async_delta_value" // a missing key reads as 0
-						negDelta = negDelta || want < 0
+						want, kind = v.sub(prevObs[set]), "async_delta_value" // a missing key reads as 0
+						negDelta = negDelta || want.neg()
 					}
-					if p.Val != want {
+					if !p.Val.eq(want) {
 						bad(kind, "collection %d%s: %s reader reports %s set #%d = %v, want %v (observed %v, preceding cycle observed %v)", k+1, conc, who, d.name, set, p.Val, want, obs, prevObs)
 					}
 				}
@@ -615,6 +615,47 @@ func run(c Case) ([]vk.Violation, vk.Info) {
 			}
 		}
 	}
+	// --- int64 magnitudes beyond what a float64 holds exactly ---
+	var hugeSync, hugeThenSmall, hugeAsync, hugeAsyncDelta bool
+	hugeKinds := map[string]bool{}
+	kindName := map[syncKind]string{kCounter: "counter", kUpDown: "updown", kHist: "explicit_hist", kExpo: "expo_hist", kGauge: "gauge"}
+	for i, d := range syncDefs {
+		sawHuge := map[int]int{} // set -> first cycle with a huge value
+		for k, cy := range w.cycles {
+			for set, vals := range cy.Recorded[i] {
+				for _, v := range vals {
+					if isHuge(v) {
+						hugeSync = true
+						hugeKinds[kindName[d.kind]] = true
+						if _, ok := sawHuge[set]; !ok {
+							sawHuge[set] = k
+						}
+					} else if at, ok := sawHuge[set]; ok && k > at && d.kind != kGauge {
+						hugeThenSmall = true
+					}
+				}
+			}
+		}
+	}
+	for _, cy := range w.cycles {
+		for _, obs := range [][]map[int]num{cy.ObservedD, cy.ObservedC} {
+			for i := range obs {
+				for _, v := range obs[i] {
+					if isHuge(v) {
+						hugeAsync = true
+						hugeAsyncDelta = hugeAsyncDelta || obsDefs[i].kind != oGauge
+					}
+				}
+			}
+		}
+	}
+	info.ClassIf(hugeSync, "int64_beyond_2^53(sync)")
+	for _, kn := range []string{"counter", "updown", "explicit_hist", "expo_hist", "gauge"} {
+		info.ClassIf(hugeKinds[kn], "int64_beyond_2^53:"+kn)
+	}
+	info.ClassIf(hugeThenSmall, "int64_huge_then_small_value_in_a_later_cycle(same stream)")
+	info.ClassIf(hugeAsync, "int64_beyond_2^53(observable)")
+	info.ClassIf(hugeAsyncDelta, "int64_beyond_2^53(observable counter/updown)")
 	var failedCycle, failAfterObserving, failThenOK, burstD, burstC, burst3, burstAsync, burstSync bool
 	for k, cy := range w.cycles {
 		if cy.Failed {
